@@ -8,6 +8,7 @@
 import LccModel.Proto
 import LccModel.Model.Callable
 import LccModel.Model.PolicySeq
+import LccModel.Model.ProjectFiles
 open Lean LccModel LccModel.Proto LccModel.Loops
 
 def getStrs (j : Json) (k : String) : Except String (List String) := do
@@ -238,7 +239,51 @@ def handleSeq (j : Json) : Except String Json := do
   pure (Json.mkObj [("verdicts", Json.arr verdicts.toArray), ("raises", Json.arr raises.toArray),
                     ("rules", ruleNames (Policy.confAll Policy.empty (Policy.confs steps)))])
 
+/-! ## projects on disk: several preparations in one process, the project designated by -p / environment / cwd -/
+
+def briefVerdict : Except Prepare.PrepErr Prepare.Prepared → Json
+  | .error (.declRefused names) => errJson "decl" "per-thread-scope" names
+  | .error (.validation (.policy e)) => policyErr e
+  | .error (.validation (.deps e)) => depsErr e
+  | .error (.validation (.fixture e)) => fixtureErr e
+  | .ok prep => Json.mkObj [("result", "ok"), ("registry", strs (Fixture.names prep.registry)),
+                            ("resolved", Json.arr (prep.resolved.map (fun (t, ds) => Json.arr #[Json.str t, strs ds])).toArray)]
+
+def parseProjDir (j : Json) : Except String ProjectFiles.ProjDir := do
+  let pj ← j.getObjVal? "project"
+  let policy ← parsePolicy (← pj.getObjVal? "policy")
+  let decls ← (← getArr pj "decls").toList.mapM parseDecl
+  let all ← (← getArr pj "all").toList.mapM parseSuite
+  let hasPy ← getBool j "projectPy"
+  pure { projectPy := if hasPy then some policy else none, suitesDir := (← getBool j "suitesDir"),
+         fixtures := decls, suites := all.map (fun s => (s.path, s)) }
+
+def parseEntry (j : Json) : Except String (String × ProjectFiles.Entry) := do
+  let path ← getStr j "path"
+  let d ← parseProjDir j
+  match ← getOptStr j "fileOf" with
+  | some root => pure (path, .projectFile root d)
+  | none => pure (path, .dir d)
+
+def parseDiskStep (j : Json) : Except String ProjectFiles.Step := do
+  let fs ← (← getArr j "fs").toList.mapM parseEntry
+  let dj ← j.getObjVal? "desig"
+  pure { fs := fs, hier := (← getStrs j "hier"),
+         desig := ⟨← getOptStr dj "arg", ← getOptStr dj "env", ← getOptStr dj "envf"⟩ }
+
+def handleDisk (j : Json) : Except String Json := do
+  let steps ← (← getArr j "disk").toList.mapM parseDiskStep
+  let out := (ProjectFiles.runChecks {} steps).2
+  let roots := steps.map (fun s => match ProjectFiles.loadProject s.fs s.hier s.desig with
+    | .ok r => Json.str r.1 | .error _ => Json.null)
+  let js := (out.zip roots).map (fun (v, root) => match v with
+    | .error (.notSuitable p) => Json.mkObj [("load", "notSuitable"), ("path", p)]
+    | .error .notFound => Json.mkObj [("load", "notFound")]
+    | .ok r => Json.mkObj [("load", "ok"), ("root", root), ("verdict", briefVerdict r)])
+  pure (Json.mkObj [("steps", Json.arr js.toArray)])
+
 def handle (j : Json) : Except String Json := do
+  if (j.getObjVal? "disk").isOk then return (← handleDisk j)
   if (j.getObjVal? "steps").isOk then return (← handleSeq j)
   let policy ← parsePolicy (← j.getObjVal? "policy")
   let decls ← (← getArr j "decls").toList.mapM parseDecl
